@@ -1047,7 +1047,6 @@ impl<R: RefCounter, PR: PathRefCounter, H: Header> Memory<R, PR, H> {
         } => {
           if remove_on_drop.load(Ordering::Acquire) {
             let _ = Box::from_raw(*buf);
-            core::ptr::drop_in_place(file);
             let _ = std::fs::remove_file(path.as_path());
             return;
           }
@@ -1057,14 +1056,12 @@ impl<R: RefCounter, PR: PathRefCounter, H: Header> Memory<R, PR, H> {
         }
         MemoryBackend::Mmap {
           path,
-          file,
           buf,
           remove_on_drop,
           ..
         } => {
           if remove_on_drop.load(Ordering::Acquire) {
             let _ = Box::from_raw(*buf);
-            core::ptr::drop_in_place(file);
             let _ = std::fs::remove_file(path.as_path());
             return;
           }
